@@ -2,8 +2,8 @@
 HOOK_COMMITS = ["eeb5880", "54c0dd5"]
 
 _NOTE = ("Trusted: Lean kernel; Spec/* transcription of the FIRST documents; F64.lean as a description of amd64 Go float64 "
-         "(its rounding function is proved round-to-nearest-even, Proofs/F64Round.lean; division's sticky bit and the math-package "
-         "transcriptions are validated bit-exactly on the whole domain each run, not verified); harness/driver/check.py. The model is hand-written: "
+         "(mul/add/sub/div and the decimal constants are proved correctly rounded, nearest-even, Proofs/F64Round.lean; the math-package "
+         "transcriptions Round/Floor/Min/Pow are validated bit-exactly on the whole domain each run, not verified); harness/driver/check.py. The model is hand-written: "
          "its tie to /repo is the correspondence run of this check (exhaustive where the domain is finite).")
 _NOTE_F = (_NOTE + " Second tie for the score properties: go/formulas translates the source text of the score and severity functions "
            "into Lean on every run and Props/Src.lean proves them equal to the model for every object (per-metric Value/IsChanged/IsEmpty/"
